@@ -61,7 +61,16 @@ def _family(rng):
         if len(names) >= 2 and rng.random() < 0.5:
             a, b = rng.sample(names, 2)
             rules.append({"name": "r1", "conditionSets": [[{"name": "Weight", "minimum": rng.choice([2, 4, 6]), "maximum": 8}]], "subs": [[a, b]]})
-        return {"locs": locs, "default": default, "masters": masters, "kern": kern, "kvals": kvals, "info": info, "rules": rules}
+        # groups: kerning groups (the same in every master) and ordinary ones (copied from the default source); rule
+        # substitutions rename their members too
+        groups = []
+        if rng.random() < 0.7:
+            groups.append(["public.kern1.grp", gen.subset(rng, names, 0.5) or names[:1]])
+            groups.append(["lowercase", gen.subset(rng, names, 0.6) or names[:1]])
+            if rules and rng.random() < 0.8:
+                groups.append(["swapped", [rules[0]["subs"][0][0], rules[0]["subs"][0][1]]])
+        return {"locs": locs, "default": default, "masters": masters, "kern": kern, "kvals": kvals, "info": info, "rules": rules,
+                "groups": groups}
     raise RuntimeError
 
 
@@ -83,7 +92,8 @@ def _build(case):
     for k, gs in enumerate(fam["masters"]):
         ufo = {"glyphs": gs, "order": sorted(gs), "glyphNames": sorted(gs),
                "info": dict(unitsPerEm=1000, descender=-200, familyName="InstTest", styleName=f"M{k}", **fam["info"][k]),
-               "kerning": [[l, r, fam["kvals"][k][j]] for j, (l, r) in enumerate(fam["kern"])], "kernScale": 4}
+               "kerning": [[l, r, fam["kvals"][k][j]] for j, (l, r) in enumerate(fam["kern"])], "kernScale": 4,
+               "groups": [list(g) for g in fam.get("groups", [])]}
         masters.append({"loc": {"Weight": fam["locs"][k]}, "ufo": ufo, "name": f"M{k}"})
     d = fam["locs"][fam["default"]]
     family = {"axes": [{"name": "Weight", "tag": "wght", "min": 0, "default": d, "max": 8}], "masters": masters, "rules": fam["rules"]}
@@ -177,6 +187,8 @@ def execute(case):
                "instKern": inst_kern if ok_k else [],
                "info": [{a: absfont.to_scaled(fam["info"][m][a], 4) for a in info} for m in range(len(fam["locs"]))],
                "instInfo": info, "srcSame": src_same,
+               "groups": [[n_, list(m_)] for n_, m_ in fam.get("groups", [])],
+               "instGroups": [[n_, list(f.groups.get(n_, []))] for n_, m_ in fam.get("groups", [])],
                "repeatSame": snapshot.font_snapshot(again) == snapshot.font_snapshot(f),
                "orderSame": snapshot.font_snapshot(other[loc]) == snapshot.font_snapshot(f),
                "swapTwiceSame": twice, "_sig": [case["cid"], loc]}
